@@ -12,6 +12,8 @@ def keys():
 
 
 def run(run):
+    from pyvc import leancheck
+    leancheck.check(run, 'Den.lean', 'linearity / bilinearity of the denotation of coefficient maps')
     ks = keys()
     components.ast_functions(run, ks, run.tier)
     run.trust('pyvc AST engine + z3 5.1 / cvc5 1.0.3')
